@@ -1,0 +1,37 @@
+//go:build verif
+
+package psatoken
+
+// VerifInitAnswers is what the lifecycle functions answer for every input at
+// the earliest moment they can be called.
+type VerifInitAnswers struct {
+	States [65536]LifeCycleState // LifeCycleToState(v)
+	Valid  [65536]bool           // ValidateSecurityLifeCycle(v) == nil
+	Names  [65536]string         // LifeCycleState(v).String()
+	IsVal  [65536]bool           // LifeCycleState(v).IsValid()
+}
+
+// VerifInitProbe is evaluated while the package-level variables are being
+// initialised, i.e. before any init() function of the package has run (the
+// position of a package-level variable of the package that is initialised with
+// one of these functions).
+var VerifInitProbe = verifInitProbe()
+
+func verifInitProbe() *VerifInitAnswers {
+	a := &VerifInitAnswers{}
+	for i := 0; i < 65536; i++ {
+		v := uint16(i)
+		func() {
+			defer func() {
+				if recover() != nil {
+					a.Names[i] = "<panic>"
+				}
+			}()
+			a.States[i] = LifeCycleToState(v)
+			a.Valid[i] = ValidateSecurityLifeCycle(v) == nil
+			a.IsVal[i] = LifeCycleState(v).IsValid()
+			a.Names[i] = LifeCycleState(v).String()
+		}()
+	}
+	return a
+}
